@@ -74,6 +74,15 @@ type Task struct {
 	Blocks int
 	Wakes  int
 
+	// LastWakeNs / LastBlockNs: bubble clock (unix ns) when the task last left / entered an
+	// external block. WakeSeqs / BlockSeqs: event sequence numbers of "scheduled for the first
+	// time after a wake-up" and "about to block" (one pair per janitor cycle).
+	LastWakeNs  int64
+	LastBlockNs int64
+	WakeSeqs    []uint64
+	BlockSeqs   []uint64
+	justWoke    bool
+
 	Panic     interface{}
 	PanicInfo string
 
@@ -544,6 +553,8 @@ func BeforeBlock(label string, kind BlockKind) BlockTok {
 	t.block = kind
 	t.blockLabel = label
 	t.Blocks++
+	t.LastBlockNs = time.Now().UnixNano()
+	t.BlockSeqs = append(t.BlockSeqs, s.NextSeq())
 	s.mu.Unlock()
 
 	return BlockTok{t: t, s: s}
@@ -568,6 +579,8 @@ func AfterBlock(tok BlockTok) {
 	t.at = "woke:" + t.blockLabel
 	t.fine = false
 	t.Wakes++
+	t.LastWakeNs = time.Now().UnixNano()
+	t.justWoke = true
 	s.mu.Unlock()
 
 	select {
@@ -986,6 +999,11 @@ func (s *Sim) Run() Verdict {
 		if t.wantLock != nil {
 			s.acquire(t.wantLock, t.wantKind, t)
 			t.wantLock = nil
+		}
+
+		if t.justWoke {
+			t.justWoke = false
+			t.WakeSeqs = append(t.WakeSeqs, s.NextSeq())
 		}
 
 		t.cond = nil
